@@ -30,6 +30,10 @@ class CallMixin:
         if front.is_logging_call(node):
             return [Out("val", st, vnone())]
         # spec functions and cast are handled on the syntax
+        if isinstance(node.func, ast.Name) and st.pure and node.func.id in getattr(self, "lets", {}):
+            lfn, lth = self.lets[node.func.id]
+            a0 = self.ev1(node.args[0], st)
+            return [Out("val", st, Val(lfn(self.as_int(a0)), th=lth))]
         if isinstance(node.func, ast.Name):
             fn = node.func.id
             if fn == "cast" and len(node.args) == 2:
